@@ -1,14 +1,18 @@
-(* C21: the corner where "the index follows the active chain after any history of connections,
-   reorganizations and restarts" is false of the code (finding C21-revert-fallback).
+(* C21: index restarts after an uncommitted reorganization.
 
-   History: the coin statistics index is synced and committed at a3 on the chain g-a1-a2-a3; the node
-   reorganizes to g-a1-b2-b3-b4 (two blocks deep), which the index follows (Rewind + CustomAppend
-   overwrite the height index at heights 2 and 3 after copying the old entries to the hash index); no
-   ChainStateFlushed arrives, so nothing is committed; the index object is destroyed and restarted
-   (as after an unclean shutdown).  Init reloads best block a3 and passes CustomInit (LookUpOne finds a3
-   in the hash index), Sync must rewind a3 -> a1, and RevertBlock(a3) finds b2's entry at height 2,
-   falls back to the hash index, where the read of a bare DBVal into a std::pair<uint256, DBVal> fails:
-   "previous block header not found" -> Rewind fails -> FatalErrorf.  All blocks are empty and valid. *)
+   History: the index is synced and committed at a3 on the chain g-a1-a2-a3; the node reorganizes to
+   g-a1-b2-b3-b4 (two blocks deep), which the index follows (Rewind + CustomAppend overwrite the height index
+   at heights 2 and 3 after copying the old entries to the hash index); no ChainStateFlushed arrives, so
+   nothing is committed; the index object is destroyed and restarted (as after an unclean shutdown).  Init
+   reloads best block a3, Sync must rewind a3 -> a1, and RevertBlock(a3) finds b2's entry at height 2 and falls
+   back to the hash index.
+   - CoinStatsIndex, current code (/repo commit b3a3ee2): the fallback reads the bare DBVal, the rewind
+     succeeds and the index reaches the new tip (positive witness below).
+   - CoinStatsIndex BEFORE b3a3ee2 (cs_remove_prefix_b3a3ee2): the fallback read a bare DBVal into a
+     std::pair<uint256, DBVal> and always failed: "previous block header not found" -> Rewind fails ->
+     FatalErrorf (witness about the old code; finding C21-revert-fallback, repaired).
+   - BlockFilterIndex (open finding): CustomInit reads the height index only (ReadFilterHeader) and refuses to start.
+   All blocks are empty and valid. *)
 From Coq Require Import NArith.
 From BV Require Import lib.Ints model.MuHash model.Index model.IndexCoinStats model.IndexTx model.IndexFilter model.IndexSim.
 Local Open Scope Z_scope.
@@ -35,7 +39,27 @@ Definition query_summary (o : list sim_out) : option (bool * bool * bool) :=   (
 Lemma coinstats_follows_reorg_without_restart : query_summary (sim_run sim0 refuted_no_restart) = Some (false, true, true).
 Proof. vm_compute. reflexivity. Qed.
 
-Lemma coinstats_restart_after_uncommitted_reorg_aborts : query_summary (sim_run sim0 refuted_restart) = Some (true, false, true).
+(* current code: the restarted index rewinds through the hash-index fallback and follows the active chain *)
+Lemma coinstats_restart_after_uncommitted_reorg_recovers : query_summary (sim_run sim0 refuted_restart) = Some (false, true, true).
+Proof. vm_compute. reflexivity. Qed.
+
+(* the code before b3a3ee2: the same history over BaseIndex with the old CustomRemove *)
+Definition nv_a : node_view := {| nv_blocks := [ra3; ra2; ra1; rg]; nv_tip := Some [13%N]; nv_last_flushed := Some [13%N] |}.
+Definition nv_b : node_view :=
+  {| nv_blocks := [rbb4; rbb3; rbb2; ra3; ra2; ra1; rg]; nv_tip := Some [24%N]; nv_last_flushed := Some [13%N] |}.
+Definition old_sync := base_sync cs_index (cs_append 150) cs_remove_prefix_b3a3ee2 cs_commit.
+Definition old_connected := base_block_connected cs_index (cs_append 150) cs_remove_prefix_b3a3ee2.
+Definition old_init := base_init cs_index cs_custom_init.
+Definition old_live : base_index cs_index :=
+  let x1 := old_sync nv_a (old_init nv_a (base_new cs_index cs_init)) in
+  old_connected nv_b (old_connected nv_b (old_connected nv_b x1 rbb2) rbb3) rbb4.
+Definition old_restarted : base_index cs_index := old_sync nv_b (old_init nv_b old_live).
+Definition base_summary (x : base_index cs_index) : bool * bool * option bytes :=
+  (bi_fatal _ x, bi_synced _ x, match bi_best _ x with Some b => Some (b_hash b) | None => None end).
+
+Lemma coinstats_prefix_b3a3ee2_follows_reorg_without_restart : base_summary old_live = (false, true, Some [24%N]).
+Proof. vm_compute. reflexivity. Qed.
+Lemma coinstats_prefix_b3a3ee2_restart_aborts : base_summary old_restarted = (true, false, Some [13%N]).
 Proof. vm_compute. reflexivity. Qed.
 
 (* the same history with a block filter index: Init fails ("Cannot read last block filter header; index may be corrupted") *)
@@ -47,12 +71,13 @@ Lemma blockfilter_restart_after_uncommitted_reorg_init_fails :
   init_failed (sim_run sim0 (bf_refuted_prefix ++ [SvStop; SvStart false false true])) = true.
 Proof. vm_compute. reflexivity. Qed.
 
-Theorem index_follows_active_chain_with_restarts_refuted :
-  exists evs_live evs_restart,
-    (* same node history; the second only adds an index restart before the query *)
-    query_summary (sim_run sim0 evs_live) = Some (false, true, true) /\
-    query_summary (sim_run sim0 evs_restart) = Some (true, false, true).
+Theorem coinstats_restart_recovers_on_fixed_code_and_aborted_prefix_b3a3ee2 :
+  (* current code *)
+  query_summary (sim_run sim0 refuted_no_restart) = Some (false, true, true) /\
+  query_summary (sim_run sim0 refuted_restart) = Some (false, true, true) /\
+  (* the code before b3a3ee2 *)
+  base_summary old_live = (false, true, Some [24%N]) /\ base_summary old_restarted = (true, false, Some [13%N]).
 Proof.
-  exists refuted_no_restart, refuted_restart.
-  split; [ exact coinstats_follows_reorg_without_restart | exact coinstats_restart_after_uncommitted_reorg_aborts ].
+  split; [ exact coinstats_follows_reorg_without_restart | split; [ exact coinstats_restart_after_uncommitted_reorg_recovers | ] ].
+  split; [ exact coinstats_prefix_b3a3ee2_follows_reorg_without_restart | exact coinstats_prefix_b3a3ee2_restart_aborts ].
 Qed.
